@@ -25,7 +25,7 @@ from functools import lru_cache
 import numpy as np
 
 from vf.c18_ref import (
-    RF, RefAlgebra, Uninterpretable, all_blades, blade_product, coef_value, selftest)
+    PTS_TAGS, RF, Pts, RefAlgebra, Uninterpretable, all_blades, blade_product, coef_value, selftest)
 from vf.run import Check, Hang, Res
 
 # {{{ bounds (every bound has a name)
@@ -51,14 +51,18 @@ NUMERIC = ("1", "-1", "2", "1/2")       # exact coefficient set (plus the symbol
 INTS = ("1", "-1", "2")                 # what may be mixed with a symbol (see assumptions)
 PAIR_COEFFS = tuple(
     [(a, b) for a in NUMERIC for b in NUMERIC]
-    + [("x", b) for b in INTS] + [(a, "x") for a in INTS] + [("x", "x"), ("x", "y")])
+    + [("x", b) for b in INTS] + [(a, "x") for a in INTS] + [("x", "x"), ("x", "y")]
+    # composite coefficient expressions (FloorDiv, Remainder, Quotient, Power, Call, Sum, Product)
+    + [("n//2", "n%3"), ("f(n)", "n/3"), ("n**2", "(n+1)//3")])
 TRIPLE_COEFFS = (("1", "1", "1"), ("2", "-1", "1/2"), ("x", "y", "2"))
 LIN21_COEFFS = (("1", "1", "1"), ("1", "-1", "2"), ("2", "1/2", "-1"), ("x", "1", "2"),
-                ("x", "y", "1"))
+                ("x", "y", "1"), ("n//2", "n%3", "f(n)"))
 LIN21_COEFFS_BIG = (("1", "-1", "2"), ("x", "y", "1"))       # dimension >= 4
 LIN22_COEFFS = (("1", "1"), ("1", "-1"), ("-1", "1"), ("-1", "-1"))   # (c2, d2); c1 = d1 = 1
-UNARY_COEFFS = ("1", "-1", "2", "1/2", "x")
-UNARY2_COEFFS = (("1", "1"), ("1", "-1"), ("2", "1/2"), ("2", "1"), ("x", "1"), ("x", "y"))
+UNARY_COEFFS = ("1", "-1", "2", "1/2", "x", "n//2", "n%3")
+UNARY_COEFFS_MORE = ("(n+1)//3", "n/3", "n**2", "f(n)", "n+1", "2*n")   # other node kinds
+UNARY2_COEFFS = (("1", "1"), ("1", "-1"), ("2", "1/2"), ("2", "1"), ("x", "1"), ("x", "y"),
+                 ("n//2", "n%3"))
 FULL_COEFFS_QUICK = (0, 1, -1)          # per-blade coefficients of the "full" family
 FULL_MAX_DIM = 2
 FULL_COEFFS_THOROUGH_D2 = (0, 1, -1, 2)
@@ -153,6 +157,11 @@ def impl_coeff(tag):
     from pymbolic.primitives import Variable
     if tag in ("x", "y"):
         return Variable(tag)
+    if tag in PTS_TAGS:             # built with the operators a user would write
+        n, f = Variable("n"), Variable("f")
+        return {"n//2": lambda: n // 2, "n%3": lambda: n % 3, "(n+1)//3": lambda: (n + 1) // 3,
+                "n/3": lambda: n / 3, "n**2": lambda: n ** 2, "f(n)": lambda: f(n),
+                "n+1": lambda: n + 1, "2*n": lambda: 2 * n}[tag]()
     if "/" in tag:
         n, d = tag.split("/")
         return Fraction(int(n), int(d))
@@ -163,14 +172,28 @@ def impl_coeff(tag):
 def ref_coeff(tag, sym):
     if tag in ("x", "y"):
         return RF.atom(tag)
+    if tag in PTS_TAGS:
+        return Pts.of_tag(tag)
     v = Fraction(tag)
     if v.denominator == 1:
         v = int(v)
+    if sym == "pts":
+        return Pts.lift(v)
     return RF.lift(v) if sym else v
 
 
+def sym_mode(tags):
+    """False: numeric; "rf": symbols x, y (exact rational functions); "pts": composite
+    coefficient expressions in n (FloorDiv, Remainder, Call, ...), compared at POINTS."""
+    tags = list(tags)
+    if any(c in PTS_TAGS for c in tags):
+        assert not any(c in ("x", "y") for c in tags)
+        return "pts"
+    return "rf" if any(c in ("x", "y") for c in tags) else False
+
+
 def is_sym_terms(*operands):
-    return any(c in ("x", "y") for terms in operands for _, c in terms)
+    return sym_mode(c for terms in operands for _, c in terms)
 
 
 def build(ctx, terms):
@@ -517,11 +540,15 @@ def check_una(ctx, payload, only=None):
     # ---- inverse ----
     grades = {len(b) for b, _ in terms}
     surely_blade = len(terms) == 1 or grades == {1}      # c*e_A, or a vector
+    # null at some of the evaluation points only: the inverse is not compared
+    skip_inv = isinstance(nsq, Pts) and nsq.partial_zero()
     exp_inv = ref.inverse(rm)                             # None: rev(M) M is not a non-zero scalar
     one = {(): 1}
     n += 1
     o = run(lambda: a.inv())
-    if surely_blade and exp_inv is not None:
+    if skip_inv:
+        pass
+    elif surely_blade and exp_inv is not None:
         bad = compare_mv(ctx, sym, o, exp_inv, False)
         if bad:
             fails.append((f"inv:{bad[0]}", bad[1]))
@@ -594,7 +621,7 @@ def check_con(ctx, payload, only=None):
         exp = {k: v for k, v in exp.items() if v != 0}
         o = run(lambda: MultiVector({tuple(p): impl_coeff(c) for p, c in data}, ctx.space))
     elif form in ("vec", "vec-default-space"):
-        sym = any(c in ("x", "y") for c in data)
+        sym = sym_mode(data)
         exp = {(i,): ref_coeff(c, sym) for i, c in enumerate(data) if c != "0"}
         vals = [impl_coeff(c) for c in data]
         arr = (np.array(vals, dtype=np.int64) if all(isinstance(v, int) for v in vals)
@@ -605,7 +632,7 @@ def check_con(ctx, payload, only=None):
             assert ctx.dtype == "euc"
             o = run(lambda: MultiVector(arr))
     elif form == "scalar":
-        sym = data in ("x", "y")
+        sym = sym_mode([data])
         exp = {} if data == "0" else {(): ref_coeff(data, sym)}
         o = run(lambda: MultiVector(impl_coeff(data), ctx.space))
     elif form == "bits":
@@ -691,7 +718,8 @@ def check_his(ctx, payload, only=None):
                              getattr(ref, refname2)(exp))
         grades = {len(b) for b, _ in m_terms}
         exp_inv = ref.inverse(rm) if (len(m_terms) == 1 or grades == {1}) else None
-        if exp_inv is not None:
+        nsq = ref.norm2(rm)
+        if exp_inv is not None and not (isinstance(nsq, Pts) and nsq.partial_zero()):
             result_check("inv", run(lambda: a.inv()), run(lambda: twin.inv()), exp_inv)
     else:
         b, twin_b = build(ctx, n_terms), build(ctx, n_terms)
@@ -965,21 +993,24 @@ class C18(Check):
         "bounded-exhaustive and deterministic, no sampling. A space = dimension d x diagonal "
         "metric in {1,-1,0,2}^d x dtype of the metric matrix (object / int64 / float64, each built "
         "through a different Space signature; a Euclidean metric also on get_euclidean_space(d)). "
-        "Families, quick -> thorough: [pairs] ALL ordered pairs of basis blades x 24 coefficient "
-        "pairs from {1,-1,2,1/2,x,y} under * ^ | << >> scalar_product (a grade-0 operand also as a "
+        "Families, quick -> thorough: [pairs] ALL ordered pairs of basis blades x 27 coefficient "
+        "pairs from {1,-1,2,1/2,x,y} and the composite coefficient expressions n//2, n%3, "
+        "(n+1)//3, n/3, n**2, f(n) (FloorDiv, Remainder, Quotient, Power, Call nodes) under * ^ | << >> scalar_product (a grade-0 operand also as a "
         "plain Python scalar), (A*B).project(k) against each derived product, rev(AB) = "
         "rev(B)rev(A), invol(AB) = invol(A)invol(B): every space with d<=3 -> d<=4 plus 8 metrics "
         "in d=5; [triples] ALL ordered triples of basis blades x 3 coefficient patterns, (AB)C = "
         "A(BC) = reference: d<=3 with 2 dtypes -> d<=3 with 3 dtypes, d=4 and 8 metrics of d=5 "
         "with 2 dtypes; [lin21] every (c1 e_A + c2 e_B) op (d e_C), its mirror image and the sums "
-        "and differences, 5 coefficient patterns: d<=3 object dtype -> d<=3 all dtypes, and with 2 "
+        "and differences, 6 coefficient patterns (one with FloorDiv/Remainder/Call coefficients): d<=3 object dtype -> d<=3 all dtypes, and with 2 "
         "patterns 8 metrics in d=4 (all dtypes) and in d=5 (object dtype); [lin22] every (e_A + c e_B) op (e_C + d e_D), c, d = +-1 (cancellation "
         "paths): d<=3 object dtype -> all dtypes, 8 metrics in d=4; [full] every ordered pair of "
         "multivectors with per-blade coefficients in {0,1,-1}, d<=2, under all products, +, -, "
         "unary -, ==, !=, hash, bool, also against the plain scalar 0 -> coefficients {0,1,-1,2} "
         "in d=2 and {0,1} in d=3 over 8 metrics; [unary] rev, invol, I, dual, norm_squared, inv, "
-        "1/B, B/B, (BB)/B, M/2, ==/hash of a second construction on every basis blade x 5 "
-        "coefficients and every sum of two basis blades x 6 coefficient pairs: d<=3 -> d<=4 + 8 "
+        "1/B, B/B, (BB)/B, M/2, ==/hash of a second construction on every basis blade x 13 "
+        "coefficients (1,-1,2,1/2,x and 8 composite expressions in n covering FloorDiv, "
+        "Remainder, Quotient, Power, Call, Sum, Product) and every sum of two basis blades x 7 "
+        "coefficient pairs: d<=3 -> d<=4 + 8 "
         "metrics in d=5; [axioms] e_i e_i = g_ii, e_i e_j = -e_j e_i = e_ij written down directly; "
         "[construct] index tuples in every permutation of <= 3 indices singly and in pairs, numpy "
         "vectors over {0,1,-1}, scalars, bitmap dicts: d<=3 -> d<=5; [history] operation histories "
@@ -987,11 +1018,11 @@ class C18(Check):
         "compared, then -, rev, invol, dual, inv (and a second such step on the used result) or "
         "* ^ | << >> + - are applied; each result must have the reference value, be == and hash "
         "like a freshly built equal multivector and like the result from a never-used twin, and "
-        "the operand must be unchanged: every blade x 5 coefficients, every two-blade sum x 3 "
+        "the operand must be unchanged: every blade x 7 coefficients, every two-blade sum x 3 "
         "patterns, every blade pair, d<=2 all metrics and 8 metrics of d=3 -> d<=3 all metrics, 8 "
         "of d=4; [self] operand aliasing: A op A with THE SAME OBJECT on both sides for every "
         "product, +, -, ==, !=, hash, and (A*A)*A = A*(A*A) = reference, A = every basis blade x "
-        "5 coefficients and every sum of two basis blades x 6 coefficient pairs (and, inside "
+        "7 coefficients and every sum of two basis blades x 7 coefficient pairs (and, inside "
         "[full], every multivector over {0,1,-1} in d<=2): d<=3 all metrics and 8 metrics of "
         "d=4, object dtype -> d<=4 all metrics, 8 of d=5, 3 dtypes; [highdim] dimensions 31, 32, 33, 34, 64, 65 (word boundaries of the bitmaps), 2 "
         "metrics: all blades of <= 3 indices from {0, 31, 32, 33, d-2, d-1} (+ the whole pool) as "
@@ -1012,6 +1043,13 @@ class C18(Check):
         "read through the documented .data bitmap mapping (bit i <-> basis vector i); symbolic "
         "coefficients of results are interpreted as rational functions by a small evaluator over "
         "Variable/Sum/Product/Quotient/Power nodes (no pymbolic mapper involved)",
+        "composite coefficient expressions in n (n//2, n%3, (n+1)//3, n/3, n**2, f(n) with f(t) = "
+        "t*t+1, n+1, 2*n) are opaque to exact rational-function comparison; results carrying "
+        "them are compared by evaluating every coefficient with an own evaluator at the integer "
+        "points n in {5,-7,4,-2,7} (none of the coefficients vanishes there; negative points "
+        "make floor division and remainder not odd-symmetric). Agreement at these points is "
+        "what is demanded, not identity. Where the squared norm of a vector with such "
+        "coefficients vanishes at some of the points only, its inverse is not compared.",
         "a symbolic coefficient is combined only with integer coefficients: pymbolic expressions "
         "refuse Fraction operands (Expression arithmetic, outside this property)",
         "results containing symbolic coefficients are compared by value only (x - x may be "
@@ -1216,7 +1254,7 @@ class C18(Check):
                     yield mk("bin", ("self", mv_m, mv_m))
         elif family == "unary":
             a = blades[ai]
-            for c in UNARY_COEFFS:
+            for c in UNARY_COEFFS + UNARY_COEFFS_MORE:
                 yield mk("una", (((a, c),),))
             for b in blades[ai + 1:]:
                 for c1, c2 in UNARY2_COEFFS:
